@@ -1,10 +1,301 @@
-From Coq Require Import List NArith Bool Permutation.
-From MWF Require Import Base.Str Expand.PyStr Expand.PyStrProofs Expand.Subst Expand.SubstProofs.
-Import ListNotations.
+(** C09 -- every defined token is substituted with the right value, and only those.
 
-Theorem C09_seq_eq_sim : forall (T l : table) (x : str),
-  wf_tableb T = true -> Permutation l T ->
+    Model: Expand/PyStr.v (Python [str.replace], [in], [startswith] over code
+    points) and Expand/Subst.v (token tables, [seq] = the implementation's
+    sequential [replace] loops, [sim] = the specification's simultaneous
+    left-to-right substitution, [apply_function], the environment / parameter /
+    workspace / $(WORKSPACE) passes, the staging of texts in both readings
+    [stage Model] and [stage Spec], the hygiene predicate [hyg], the monitor
+    [C09_ok]).  Proofs: Expand/PyStrProofs.v, SubstProofs.v, SubstPasses.v;
+    concrete witnesses: SubstWitness.v.
+
+    [C09_ok c o] says: the observed expansion [o] (every record's name,
+    description, run dict, script text, restart script text) IS [stage Spec c]
+    -- the study in which every field went through [sim] of exactly the defined
+    token tables, pass by pass -- and no defined token occurs in it any more.
+    harness/props/c09.py evaluates this same [C09_ok], inside Coq, on the texts
+    written by the IMPLEMENTATION (real adapters' write_script), next to the
+    correspondence [stage Model c = observed].
+
+    Hypotheses.  [valid_case]: the domain of the model (distinct step names over
+    [A-Za-z0-9_.-], parameter keys distinct words, row counts agree, the order is
+    a duplicate-free enumeration of the steps).  [hyg]: the token-freeness
+    hypothesis of the core law for every pass on every text of the study, and
+    the WSREGEX scan is exact.  Its complement is the union of the two known
+    findings: K4a ([sig_K4a]: a WSREGEX capture swallowed "$", "(" or ")") and
+    K4b ([sig_K4b = negb hyg]: token text arises from substituted values). *)
+From MWF Require Import Base.Str Expand.PyStr Expand.Subst Expand.SubstProofs Expand.SubstPasses
+     Expand.SubstWitness.
+From Coq Require Import Permutation.
+
+(* ======================================================================== *)
+(** * The core law: sequential [str.replace] = simultaneous substitution *)
+
+(** For every token table [T] (token strings "$(" name ")" with names free of
+    "$", "(", ")", pairwise distinct -- [wf_tableb]) and EVERY text [x]: if the
+    simultaneous substitution [sim T x] contains no occurrence of a token of [T],
+    then applying Python's [replace] for the entries of [T] in ANY order [l]
+    yields exactly [sim T x].  (The general statement, not the fallback.) *)
+Theorem seq_eq_sim : forall (T l : table) (x : str),
+  wf_tableb T = true -> Permutation l T -> token_free T (sim T x) = true ->
+  seq l x = sim T x.
+Proof. exact core_seq_eq_sim. Qed.
+Print Assumptions seq_eq_sim.
+
+(** The same for a loop that visits only some entries (repetitions allowed), as
+    long as it visits every token that occurs in the text: the workspace loop of
+    [Study._stage] runs over the regex captures, not over all steps. *)
+Theorem seq_eq_sim_subloop : forall (T l : table) (x : str),
+  wf_tableb T = true ->
+  (forall e, In e l -> In e T) ->
+  (forall t, In t (tokens T) -> occursb t x = true -> In t (tokens l)) ->
   token_free T (sim T x) = true ->
   seq l x = sim T x.
-Proof. intros T l x H. apply seq_eq_sim. apply wf_tableb_spec. exact H. Qed.
-Print Assumptions C09_seq_eq_sim.
+Proof. exact core_seq_eq_sim_gen. Qed.
+Print Assumptions seq_eq_sim_subloop.
+
+(** Consequence 1: no defined token survives. *)
+Theorem C09_no_token_survives : forall (T l : table) (x : str),
+  wf_tableb T = true -> Permutation l T -> token_free T (sim T x) = true ->
+  forall t, In t (tokens T) -> occursb t (seq l x) = false.
+Proof. exact core_no_token_survives. Qed.
+Print Assumptions C09_no_token_survives.
+
+(** Consequence 2: the order of dict iteration is irrelevant (also serves C11). *)
+Theorem C09_order_irrelevant : forall (T l1 l2 : table) (x : str),
+  wf_tableb T = true -> Permutation l1 T -> Permutation l2 T ->
+  token_free T (sim T x) = true -> seq l1 x = seq l2 x.
+Proof. exact core_order_irrelevant. Qed.
+Print Assumptions C09_order_irrelevant.
+
+(** Consequence 3: text outside token occurrences is untouched.  The input
+    splits into literal characters [C c] and token occurrences [K t v] with
+    [(t, v)] an entry of the table; the input is the list with every [K t v]
+    read as [t] ([src]), the output is the list with every [K t v] read as [v]
+    ([dst]); and no token of the table starts at a literal character. *)
+Theorem C09_untouched : forall (T l : table) (x : str),
+  wf_tableb T = true -> Permutation l T -> token_free T (sim T x) = true ->
+  exists L : list item,
+    x = src L /\ seq l x = dst L /\
+    (forall t v, In (K t v) L -> In (t, v) T) /\
+    (forall L1 c L2, L = L1 ++ C c :: L2 -> lookup_prefix T (c :: src L2) = None).
+Proof. exact core_untouched. Qed.
+Print Assumptions C09_untouched.
+
+Theorem C09_src_dst : forall L : list item,
+  src L = flat_map (fun it => match it with C c => [c] | K t _ => t end) L /\
+  dst L = flat_map (fun it => match it with C c => [c] | K _ v => v end) L.
+Proof. exact src_dst_spec. Qed.
+Print Assumptions C09_src_dst.
+
+(** What [sim] is: a defined token at the head is replaced by ITS value ... *)
+Theorem C09_sim_token : forall (T : table) (t v r : str),
+  wf_tableb T = true -> In (t, v) T -> sim T (t ++ r) = v ++ sim T r.
+Proof. exact core_sim_token. Qed.
+Print Assumptions C09_sim_token.
+
+(** ... a character at which no defined token starts is copied. *)
+Theorem C09_sim_char : forall (T : table) (c : N) (r : str),
+  (forall t, In t (tokens T) -> prefixb t (c :: r) = false) -> sim T (c :: r) = c :: sim T r.
+Proof. exact core_sim_char. Qed.
+Print Assumptions C09_sim_char.
+
+(** The token-freeness hypothesis cannot be dropped (this is K4b in the small):
+    with $(A) -> "$(B)", $(B) -> "1" the two orders of [replace] disagree with
+    each other and one of them with [sim]. *)
+Theorem seq_eq_sim_unconditional_refuted : exists (T l : table) (x : str),
+  wf_tableb T = true /\ Permutation l T /\ seq l x <> sim T x /\ seq l x <> seq (rev l) x.
+Proof. exact unconditional_core_refuted. Qed.
+Print Assumptions seq_eq_sim_unconditional_refuted.
+
+(* ======================================================================== *)
+(** * The tables of the passes *)
+
+(** C09_values.  The table of the parameter pass for row [i] is well formed and
+    maps $(K), $(K.label), $(K.name) to row [i]'s value / label / name ... *)
+Theorem C09_values : forall (ps : list param) (i : nat) (p : param) (r : str),
+  keys_okb ps = true -> In p ps ->
+  sim (param_table ps i) (tok (p_key p) ++ r) = row_value p i ++ sim (param_table ps i) r /\
+  sim (param_table ps i) (tok (p_key p ++ s ".label") ++ r) = row_label p i ++ sim (param_table ps i) r /\
+  sim (param_table ps i) (tok (p_key p ++ s ".name") ++ r) = param_name p ++ sim (param_table ps i) r.
+Proof. exact param_table_values. Qed.
+Print Assumptions C09_values.
+
+(** ... and only those: where none of these tokens starts, the character is copied. *)
+Theorem C09_values_only : forall (ps : list param) (i : nat) (c : N) (r : str),
+  (forall p, In p ps ->
+     prefixb (tok (p_key p)) (c :: r) = false /\
+     prefixb (tok (p_key p ++ s ".label")) (c :: r) = false /\
+     prefixb (tok (p_key p ++ s ".name")) (c :: r) = false) ->
+  sim (param_table ps i) (c :: r) = c :: sim (param_table ps i) r.
+Proof. exact param_table_only. Qed.
+Print Assumptions C09_values_only.
+
+(** [Combination.apply] (three loops over the row's dicts) computes it. *)
+Theorem C09_values_model : forall (ps : list param) (i : nat) (x : str),
+  keys_okb ps = true ->
+  token_free (param_table ps i) (sim (param_table ps i) x) = true ->
+  param_pass Model ps i x = sim (param_table ps i) x.
+Proof. exact param_pass_model. Qed.
+Print Assumptions C09_values_model.
+
+Theorem C09_valid_keys : forall c, valid_case c = true -> keys_okb (c_params c) = true.
+Proof. exact valid_case_keys. Qed.
+Print Assumptions C09_valid_keys.
+
+(** The workspace pass of an instance [d] maps the token $(n.workspace) of every
+    step [n] staged before it to the directory recorded for [n] in [d] ... *)
+Theorem C09_ws_lookup : forall (d : desc) (n r : str),
+  wf_tableb (ws_T d) = true -> In n (map fst (d_dirs d)) ->
+  sim (ws_T d) (ws_tok n ++ r) = dir_of n (d_dirs d) ++ sim (ws_T d) r.
+Proof. exact ws_pass_lookup. Qed.
+Print Assumptions C09_ws_lookup.
+
+(** C09_ws_ordinary ... which, for a step that is not a funnel parent, is the
+    workspace of the instance [d'] of that step for the SAME parameter row (or
+    its only instance when it is not parameterised).  Holds of the plan in
+    either reading [m]. *)
+Theorem C09_ws_ordinary : forall (m : mode) (c : case) (ds : list desc) (d d' : desc),
+  valid_case c = true -> plan m c = Some ds -> In d ds -> In d' ds ->
+  ~ In (s_name (d_step d')) (hub_of (d_step d)) ->
+  In (s_name (d_step d')) (map fst (d_dirs d)) ->
+  (d_row d' = d_row d \/ d_row d' = None) ->
+  dir_of (s_name (d_step d')) (d_dirs d) = d_ws d'.
+Proof. exact plan_ws_ordinary. Qed.
+Print Assumptions C09_ws_ordinary.
+
+(** C09_ws_funnel: for a funnel parent ("p_*" / "p*" in depends) it is the
+    step's root directory root/p ([msp] = make_safe_path). *)
+Theorem C09_ws_funnel : forall (m : mode) (c : case) (ds : list desc) (d : desc) (n : str),
+  valid_case c = true -> plan m c = Some ds -> In d ds ->
+  In n (hub_of (d_step d)) -> n <> SOURCE -> In n (map fst (d_dirs d)) ->
+  dir_of n (d_dirs d) = msp (c_root c) [n].
+Proof. exact plan_ws_funnel. Qed.
+Print Assumptions C09_ws_funnel.
+
+(** $(WORKSPACE) is the instance's own directory, which is root/step or
+    root/step/combination and goes with the instance's name. *)
+Theorem C09_own_workspace : forall (d : desc) (r : str),
+  sim (rec_T d) (WORKSPACE_TOK ++ r) = d_ws d ++ sim (rec_T d) r.
+Proof. exact rec_pass_lookup. Qed.
+Print Assumptions C09_own_workspace.
+
+Theorem C09_own_workspace_dir : forall (m : mode) (c : case) (ds : list desc) (d : desc),
+  plan m c = Some ds -> In d ds ->
+  exists u, d_ws d = own_ws (c_root c) (c_params c) (s_name (d_step d)) u (d_row d) /\
+            d_name d = iname (c_params c) (s_name (d_step d)) u (d_row d).
+Proof. exact plan_own_ws. Qed.
+Print Assumptions C09_own_workspace_dir.
+
+(* ======================================================================== *)
+(** * The study: passes, recursion, and the monitor *)
+
+(** C09_recursion: [apply_function] reaches every string at every depth of
+    lists and dicts, each exactly once and in place (empty strings are falsy and
+    stay empty), and leaves structure, dict keys and non-strings alone. *)
+Theorem C09_recursion : forall (f : str -> str) (v : pyval),
+  strings_of (apply_function f v) = map (apply_str f) (strings_of v) /\
+  skeleton (apply_function f v) = skeleton v.
+Proof. exact recursion_pyval. Qed.
+Print Assumptions C09_recursion.
+
+Theorem C09_recursion_step : forall (f : str -> str) (st : step),
+  step_strings (step_map f st) = map (apply_str f) (step_strings st) /\
+  s_name (step_map f st) = s_name st /\
+  map fst (s_run (step_map f st)) = map fst (s_run st).
+Proof. exact recursion_step. Qed.
+Print Assumptions C09_recursion_step.
+
+(** C09_passes: under the hypotheses the implementation's reading of staging
+    yields, for every planned instance [d] of a step written as [st0] in the
+    specification, the script
+      "#!shell\n\n" ++ rec_pass (ws_pass (param_pass (row of d) (env_pass cmd))) ++ "\n"
+    with every pass the simultaneous substitution [sim] of its table
+    ([spec_text] / [spec_field] unfold to exactly that composition). *)
+Theorem C09_passes : forall (c : case) (ds : list desc),
+  valid_case c = true -> hyg c = true -> plan Spec c = Some ds ->
+  stage Model c = Staged (map (inst_of Spec (c_params c) (c_shell c)) ds) /\
+  forall d, In d ds -> exists st0,
+    In st0 (c_steps c) /\ s_name st0 = s_name (d_step d) /\
+    let i := inst_of Spec (c_params c) (c_shell c) d in
+    i_script i = script_text (c_shell c) (spec_text c d (run_text "cmd" st0)) /\
+    i_rscript i = match spec_text c d (run_text "restart" st0) with
+                  | [] => None
+                  | _ => Some (script_text (c_shell c) (spec_text c d (run_text "restart" st0)))
+                  end.
+Proof. exact script_passes. Qed.
+Print Assumptions C09_passes.
+
+Theorem C09_spec_text_unfold : forall (c : case) (d : desc) (x0 : str),
+  spec_text c d x0 =
+  sim (rec_T d) (sim (ws_T d)
+    (match d_row d with
+     | None => env_pass Spec (env_build (c_env c)) x0
+     | Some i => sim (param_table (c_params c) i) (env_pass Spec (env_build (c_env c)) x0)
+     end)).
+Proof. exact spec_text_unfold. Qed.
+Print Assumptions C09_spec_text_unfold.
+
+Theorem C09_env_pass_unfold : forall (E : envt) (x : str),
+  env_pass Spec E x = match x with
+                      | [] => []
+                      | _ => sim (e_subs E) (sim (e_deps E) (sim (e_labels E) x))
+                      end.
+Proof. exact env_pass_unfold. Qed.
+Print Assumptions C09_env_pass_unfold.
+
+(** The two readings of staging agree on every hygienic study ... *)
+Theorem C09_model_eq_spec : forall c : case, hyg c = true -> stage Model c = stage Spec c.
+Proof. exact stage_model_eq_spec. Qed.
+Print Assumptions C09_model_eq_spec.
+
+(** ... hence the monitor holds: C09 for the model. *)
+Theorem C09 : forall c : case, valid_case c = true -> hyg c = true -> C09_ok c (stage Model c) = true.
+Proof. exact C09_main. Qed.
+Print Assumptions C09.
+
+(* ======================================================================== *)
+(** * Known findings: the full statement (without [hyg]) is false *)
+
+(** Full statement:  forall c, valid_case c = true -> C09_ok c (stage Model c) = true.
+    K4a: WSREGEX's character class contains "$", "(", ")" and "/", so
+    "$(a.workspace)/$(a.workspace)" (and "$(P)/$(a.workspace)") is scanned as
+    ONE workspace name and staging raises instead of substituting. *)
+Theorem C09_K4a_refuted : exists c : case,
+  valid_case c = true /\ sig_K4a c = true /\
+  stage Model c = Raised /\ C09_ok c (stage Model c) = false.
+Proof. exact K4a_refuted. Qed.
+Print Assumptions C09_K4a_refuted.
+
+Theorem C09_K4a_param_refuted : exists c : case,
+  valid_case c = true /\ sig_K4a c = true /\ c_params c <> [] /\
+  stage Model c = Raised /\ C09_ok c (stage Model c) = false.
+Proof. exact K4a_param_refuted. Qed.
+Print Assumptions C09_K4a_param_refuted.
+
+(** K4b: a value that is itself token text is substituted again by a later
+    pass ($(WORKSPACE) inside a parameter value) or survives ($(VAR1) inside a
+    parameter value: the environment pass ran earlier). *)
+Theorem C09_K4b_refuted : exists c : case,
+  valid_case c = true /\ sig_K4a c = false /\ sig_K4b c = true /\
+  C09_ok c (stage Model c) = false.
+Proof. exact K4b_refuted. Qed.
+Print Assumptions C09_K4b_refuted.
+
+(* ======================================================================== *)
+(** * Non-vacuity: the hypotheses are satisfiable, with every kind of token *)
+Example C09_hypotheses_satisfiable :
+  valid_case good_case = true /\ hyg good_case = true /\ sig_K4a good_case = false /\
+  script_of (s "a_P.2") (stage Model good_case) =
+    Some (script_text (s "/bin/bash") (s "echo 2 data $(date) > /out/a/P.2/o")) /\
+  script_of (s "b_P.2") (stage Model good_case) =
+    Some (script_text (s "/bin/bash") (s "cat /out/a/P.2/o # P.2 size")) /\
+  script_of (s "c") (stage Model good_case) =
+    Some (script_text (s "/bin/bash") (s "ls /out/a /out")).
+Proof. exact good_facts. Qed.
+
+Example C09_core_law_hypotheses_satisfiable :
+  let T := [(s "$(A)", s "1"); (s "$(A.label)", s "A.1")] in
+  wf_tableb T = true /\ token_free T (sim T (s "x$(A)$(A.label)$(B)")) = true /\
+  sim T (s "x$(A)$(A.label)$(B)") = s "x1A.1$(B)".
+Proof. exact core_example. Qed.
